@@ -266,6 +266,15 @@ def main(run):
     for ty, v in list(C.per_type.items())[:6]:
         run.sample({'type': ty, 'routes': v})
     n = sum(run.cov.get(k, 0) for k in ('routes_out', 'routes_in', 'routes_cmp'))
+    # the routes IN that start from another library value (TryFrom / try_into_* / as_* between the eight RI types) accept exactly the language
+    # of the target type (the conversion evaluator of C13): an ill-formed value cannot be obtained through them either
+    from .. import convexact, sites as _sites
+    from ..core import Run as _Run
+    _scratch = _Run('C14-sites', run.tier, '__none__')
+    _ctx, _res = _sites.check(_scratch, P, 'C14')
+    _RI = ['uri::Uri', 'uri::reference::UriRef', 'iri::Iri', 'iri::reference::IriRef']
+    convexact.check(run, P, _ctx, set(_RI) | {o for o, b_ in _ctx.owned.items() if b_ in _RI})
+    run.floor('exactness_checks', 55, 'conversions between library types whose success language was compared with the target language')
     return run.finish('other', {
         'explanation': f'dataflow identity on the inlined symbolic term of {n} route functions: routes out return/print/serialise the stored text of self; '
                        'plain-text comparisons are the primitive == on it; routes in obtain Ok only from the checked constructor of the same type applied to the input',
